@@ -25,11 +25,11 @@ impl Prop for C13 {
     fn phases(&self, tier: Tier) -> Vec<Phase> {
         let mut v = vec![
             Phase::new("host-routes", tier.pick(20_000, 400_000)).min_cases(tier.pick(8000, 150_000)).timeouts(120, tier.pick(400, 3000)),
-            Phase::new("gluon-routes", tier.pick(2500, 40_000)).min_cases(tier.pick(1000, 15_000)).timeouts(120, tier.pick(400, 3000)),
-            Phase::new("host-routes-asan", tier.pick(3000, 60_000)).build(Build::Asan).min_cases(tier.pick(1000, 20_000)).timeouts(240, tier.pick(400, 3000)),
+            Phase::new("gluon-routes", tier.pick(1500, 7000)).min_cases(tier.pick(500, 2000)).timeouts(120, tier.pick(400, 3000)),
+            Phase::new("host-routes-asan", tier.pick(1500, 5000)).build(Build::Asan).min_cases(tier.pick(500, 1500)).timeouts(240, tier.pick(400, 3000)),
         ];
         if tier == Tier::Thorough {
-            v.push(Phase::new("gluon-routes-asan", 8000).build(Build::Asan).min_cases(3000).timeouts(240, 3000));
+            v.push(Phase::new("gluon-routes-asan", 1200).build(Build::Asan).min_cases(300).timeouts(240, 3000));
         }
         v
     }
